@@ -119,9 +119,14 @@ FIXED += [
   'with the default rules the contents of .terraform/modules were packed but the directory entry itself was dropped, so after Unpack the directory had mode 0755 and the time of the unpacking instead of its own'),
 ]
 
+FIXED += [
+ ("C04", "dotdot-after-symlink-component", "fix: refuse symlinks that lead outside through another symlink",
+  'a link whose target applies ".." after a component that is itself a symlink in dst ("d/l -> .." together with "m -> d/l/../secret", in either order) was accepted because targets were validated as written; the operating system resolves m to a location outside dst. Recorded as an open finding for most of the session, then repaired'),
+ ("C05", "out-of-tree-link-not-refused", "fix: refuse symlinks that lead outside through another symlink",
+  'Pack stored "l -> sub/deep/top/../outside/file.txt" (with "sub/deep/top -> ../..") as a link although it leads out of the source tree'),
+]
+
 OPEN = [
- ("C04", "dotdot-after-symlink-component",
-  'a link whose target applies ".." after a component that is itself a symlink in dst (e.g. "d/l -> .." together with "m -> d/l/../secret", in either order) is accepted because targets are validated lexically; the operating system resolves m to a location outside dst. No entry can be written through such a link any more (see the fixed C01 entries), but the link itself remains'),
  # (property, key, what fails)
  ("C06", "edge-whitespace",
   'an address value whose printed form begins or ends with white space (e.g. ResolveRelativeSource("./g0\\t/cidr", "../") = "./g0\\t", or a registry sub-path ending in "\\n") is refused by ParseSource/ParseFinalSource ("must not have leading or trailing spaces"); only reachable with path segments that start or end with white space'),
